@@ -6,8 +6,11 @@ import Nstd.Callback.LemmasFuel
   `machine` is the model of Callback.cpp (Model.lean), `Spec.machine` the snapshot
   specification (Spec.lean); both are run by the same program evaluator `exec` (the `emit`
   template + the slot bodies = scripts of connect / disconnect / emit / delete listener /
-  delete emitter actions indexed by (listener, slot, invocation number)).  `runOps` runs a
-  list of top-level actions, each to completion with its own fuel, as the driver does.
+  delete emitter / new listener / new emitter actions indexed by (listener, slot, invocation
+  number); the actions name the harness's variables `em[i]`, `li[i]`, a destroyed object can be
+  replaced by a new one).  `runOps` runs a list of top-level actions, each to completion with its
+  own fuel, as the driver does; `Run.init _ ne nl` = the first `ne` / `nl` objects are held by the
+  variables, every other object id is unused (an unused object is a freshly constructed one).
   Every theorem is for all programs `P`, all numbers of emitters/listeners, all action lists
   and all fuel (when the fuel runs out both evaluators stop at the same point, so the
   statements hold without a side condition; `fuel_irrelevant`: a run that did not run out is
@@ -27,8 +30,8 @@ open Spec
     invokes, in connection order, exactly the connections made before the outermost emission of
     that signal in progress began and still live at their turn. -/
 theorem emit_refines (P : Prog) (ne nl fuel : Nat) (ops : List Action) :
-    (runOps machine P fuel (Run.init (State.create ne nl)) ops).log =
-      (runOps Spec.machine P fuel (Run.init (SState.create ne nl)) ops).log :=
+    (runOps machine P fuel (Run.init State.fresh ne nl) ops).log =
+      (runOps Spec.machine P fuel (Run.init SState.fresh ne nl) ops).log :=
   (runOps_rel P fuel ops (init_rel ne nl)).log
 
 /-- the same from any pair of related states in the middle of arbitrarily nested emissions
@@ -37,7 +40,7 @@ theorem emit_refines_nested (P : Prog) (fuel : Nat) (K : MStack) (script : List 
     (r₁ : Run State) (r₂ : Run SState) (h : RunRel Sim K r₁ r₂) :
     (exec machine P fuel r₁ (.acts script)).log = (exec Spec.machine P fuel r₂ (.acts script)).log ∧
       RunRel Sim K (exec machine P fuel r₁ (.acts script)) (exec Spec.machine P fuel r₂ (.acts script)) :=
-  have hr := (exec_sim simOK P (fun _ _ _ _ _ => trivial) fuel).1 K script r₁ r₂ (fun _ _ => trivial) h
+  have hr := (exec_sim simOK P fuel).1 K script r₁ r₂ h
   ⟨hr.log, hr⟩
 
 /-- the emission loop itself: from related states the rest of an emission produces the same log
@@ -45,7 +48,7 @@ theorem emit_refines_nested (P : Prog) (fuel : Nat) (K : MStack) (script : List 
 theorem emit_refines_loop (P : Prog) (fuel : Nat) (K : MStack) (fid idx : Nat) (eg : Nat × Nat) (snap : List Nat)
     (r₁ : Run State) (r₂ : Run SState) (h : RunRel Sim (((fid, idx), (eg, snap)) :: K) r₁ r₂) :
     (exec machine P fuel r₁ (.loop fid idx)).log = (exec Spec.machine P fuel r₂ (.loop eg snap)).log := by
-  obtain ⟨_, _, hr⟩ := (exec_sim simOK P (fun _ _ _ _ _ => trivial) fuel).2 K fid idx eg snap r₁ r₂ h
+  obtain ⟨_, _, hr⟩ := (exec_sim simOK P fuel).2 K fid idx eg snap r₁ r₂ h
   exact hr.log
 
 /-- **Safety.**  No run ever touches freed memory: the evaluator never invokes a slot of a
@@ -54,8 +57,8 @@ theorem emit_refines_loop (P : Prog) (fuel : Nat) (K : MStack) (fid idx : Nat) (
     listener from `~Emitter` (`fault`), whatever the slots do (connect, disconnect, emit
     recursively, destroy listeners or emitters, their own included). -/
 theorem no_use_after_free (P : Prog) (ne nl fuel : Nat) (ops : List Action) :
-    (runOps machine P fuel (Run.init (State.create ne nl)) ops).bad = false ∧
-      (runOps machine P fuel (Run.init (State.create ne nl)) ops).m.fault = false :=
+    (runOps machine P fuel (Run.init State.fresh ne nl) ops).bad = false ∧
+      (runOps machine P fuel (Run.init State.fresh ne nl) ops).m.fault = false :=
   have h := runOps_rel P fuel ops (init_rel ne nl)
   ⟨h.bad₁, h.sim.nofault⟩
 
@@ -122,13 +125,13 @@ theorem never_after_disconnect_or_destroy {m : State} {s : SState} {K : MStack} 
     and log, the run of the unmonitored model: no invocation anywhere in any run violates the
     condition. -/
 theorem never_invoked_unless_listed (P : Prog) (ne nl fuel : Nat) (ops : List Action) :
-    (runOps monitored P fuel (Run.init (State.create ne nl)) ops).bad = false ∧
-      (runOps monitored P fuel (Run.init (State.create ne nl)) ops).m =
-        (runOps machine P fuel (Run.init (State.create ne nl)) ops).m ∧
-      (runOps monitored P fuel (Run.init (State.create ne nl)) ops).log =
-        (runOps machine P fuel (Run.init (State.create ne nl)) ops).log := by
-  have h0 : RunRel SimM [] (Run.init (State.create ne nl)) (Run.init (State.create ne nl)) :=
-    ⟨⟨rfl, fun k hk => by simp at hk, SState.create ne nl, [], sim_init ne nl, rfl⟩, rfl, rfl, rfl, rfl⟩
+    (runOps monitored P fuel (Run.init State.fresh ne nl) ops).bad = false ∧
+      (runOps monitored P fuel (Run.init State.fresh ne nl) ops).m =
+        (runOps machine P fuel (Run.init State.fresh ne nl) ops).m ∧
+      (runOps monitored P fuel (Run.init State.fresh ne nl) ops).log =
+        (runOps machine P fuel (Run.init State.fresh ne nl) ops).log := by
+  have h0 : RunRel SimM [] (Run.init State.fresh ne nl) (Run.init State.fresh ne nl) :=
+    ⟨⟨rfl, fun k hk => by simp at hk, SState.fresh, [], sim_init, rfl⟩, ⟨rfl, rfl, rfl, rfl, rfl⟩, rfl, rfl, rfl, rfl⟩
   have h := runOps_relM P fuel ops h0
   exact ⟨h.bad₁, h.sim.1, h.log⟩
 
@@ -153,8 +156,8 @@ theorem spec_live_after_destroy (s : SState) :
     slot (nothing at all under a destroyed emitter); and the emitter side is, in order, the list
     of live connections of the specification. -/
 theorem bookkeeping_consistent (P : Prog) (ne nl fuel : Nat) (ops : List Action) :
-    let m := (runOps machine P fuel (Run.init (State.create ne nl)) ops).m
-    let s := (runOps Spec.machine P fuel (Run.init (SState.create ne nl)) ops).m
+    let m := (runOps machine P fuel (Run.init State.fresh ne nl) ops).m
+    let s := (runOps Spec.machine P fuel (Run.init SState.fresh ne nl) ops).m
     m.frames = [] ∧
     (∀ e g d, m.data e g = some d →
       d.activation = none ∧ d.dirty = false ∧
@@ -207,8 +210,8 @@ theorem bookkeeping_consistent (P : Prog) (ne nl fuel : Nat) (ops : List Action)
     speak about *the* behaviour of every terminating program; a program whose slots re-emit for
     ever exhausts every fuel, as it exhausts the C++ stack). -/
 theorem fuel_irrelevant (P : Prog) (ne nl n : Nat) (ops : List Action)
-    (h : (runOps machine P n (Run.init (State.create ne nl)) ops).oof = false) (n' : Nat) (hn : n ≤ n') :
-    runOps machine P n' (Run.init (State.create ne nl)) ops = runOps machine P n (Run.init (State.create ne nl)) ops :=
+    (h : (runOps machine P n (Run.init State.fresh ne nl) ops).oof = false) (n' : Nat) (hn : n ≤ n') :
+    runOps machine P n' (Run.init State.fresh ne nl) ops = runOps machine P n (Run.init State.fresh ne nl) ops :=
   runOps_fuel_mono machine P n ops _ h n' hn
 
 /-! ### non-vacuity: a concrete program in which a slot disconnects, re-connects and disconnects
@@ -218,29 +221,30 @@ def d18 : Prog :=
   { script := fun l s k => if l = 0 ∧ s = 0 ∧ k = 0 then
       [.disconnect 0 0 0 0, .connect 0 0 0 0, .disconnect 0 0 0 0, .connect 0 0 1 1, .emit 0 0] else [] }
 
-def d18ops : List Action := [.connect 0 0 0 0, .connect 0 0 1 0, .emit 0 0, .emit 0 0, .delL 1, .delE 0]
+def d18ops : List Action :=
+  [.connect 0 0 0 0, .connect 0 0 1 0, .emit 0 0, .emit 0 0, .delL 1, .newL 1, .connect 0 0 1 1, .emit 0 0, .delE 0]
 
-example : (runOps machine d18 20 (Run.init (State.create 1 2)) d18ops).log.reverse =
-    [(0, 0), (1, 0), (1, 0), (1, 0), (1, 1)] := by decide
+example : (runOps machine d18 20 (Run.init State.fresh 1 2) d18ops).log.reverse =
+    [(0, 0), (1, 0), (1, 0), (1, 0), (1, 1), (1, 1)] := by decide
 
-example : (runOps Spec.machine d18 20 (Run.init (SState.create 1 2)) d18ops).log.reverse =
-    [(0, 0), (1, 0), (1, 0), (1, 0), (1, 1)] := by decide
+example : (runOps Spec.machine d18 20 (Run.init SState.fresh 1 2) d18ops).log.reverse =
+    [(0, 0), (1, 0), (1, 0), (1, 0), (1, 1), (1, 1)] := by decide
 
 /-- the hypothesis of `emit_refines_nested` is met by the initial states -/
-example : RunRel Sim [] (Run.init (State.create 3 3)) (Run.init (SState.create 3 3)) := init_rel 3 3
+example : RunRel Sim [] (Run.init State.fresh 3 3) (Run.init SState.fresh 3 3) := init_rel 3 3
 
 /-- ... and by a state in the middle of an emission (one connection, its emission begun): the
     hypotheses of `emit_refines_loop` and `never_after_disconnect_or_destroy` are met with a
     non-empty stack and an actual invocation -/
-def midModel : State := (actBegin 0 0 (connect 0 0 0 0 (State.create 1 1))).1
-def midSpec : SState := (Spec.begin 0 0 (Spec.connect 0 0 0 0 (SState.create 1 1))).1
+def midModel : State := (actBegin 0 0 (connect 0 0 0 0 State.fresh)).1
+def midSpec : SState := (Spec.begin 0 0 (Spec.connect 0 0 0 0 SState.fresh)).1
 
 example : Sim midModel midSpec [((0, 0), ((0, 0), [0]))] :=
-  sim_begin 0 0 (sim_connect 0 0 0 0 (sim_init 1 1) rfl rfl) rfl
+  sim_begin 0 0 (sim_connect 0 0 0 0 sim_init rfl rfl) rfl
 
 example : machine.next midModel 0 0 = .call 0 0 1 := rfl
 
 /-- the hypothesis of `fuel_irrelevant` is met by the D18 program with fuel 20 -/
-example : (runOps machine d18 20 (Run.init (State.create 1 2)) d18ops).oof = false := by decide
+example : (runOps machine d18 20 (Run.init State.fresh 1 2) d18ops).oof = false := by decide
 
 end Nstd.Callback
